@@ -62,8 +62,35 @@ VSameVerdict(ev) ==
   ELSE IF ev.exit1 # ev.exit2 THEN "bad:exit-status-differs"
   ELSE IF ToSet(ev.names1) # ToSet(ev.names2) THEN "bad:reported-interfaces-differ" ELSE "ok"
 
+(* C13: leaf mode vs default mode on the same pair *)
+VLeaf(ev) ==
+  IF ~Terminated(ev) THEN "bad:crash"
+  ELSE IF ev.exitDefault # ev.exitLeaf
+       THEN (IF KF_C13_union(ev) THEN "kf:C13-same-size-change-in-union" ELSE "bad:leaf-mode-exit-status-differs")
+  ELSE IF ~(ToSet(ev.changedDefault) \subseteq ToSet(ev.mentionedLeaf)) THEN "bad:changed-interface-not-impacted-in-leaf-mode"
+  ELSE "ok"
+
+(* C10: summary numbers = listed entries, per section; --stat prints the same summary *)
+SecOk(ev, part, field, sec) ==
+  LET n == IF part \in DOMAIN ev.summary THEN ev.summary[part][field] ELSE 0
+      m == IF sec \in DOMAIN ev.entries THEN ev.entries[sec] ELSE 0
+      h == IF sec \in DOMAIN ev.sections THEN ev.sections[sec] ELSE 0
+  IN n = m /\ h = m
+VSummary(ev) ==
+  IF ~Terminated(ev) THEN "bad:crash"
+  ELSE IF ~(/\ SecOk(ev, "fns", "removed", "removed_fns") /\ SecOk(ev, "fns", "changed", "changed_fns") /\ SecOk(ev, "fns", "added", "added_fns")
+            /\ SecOk(ev, "vars", "removed", "removed_vars") /\ SecOk(ev, "vars", "changed", "changed_vars") /\ SecOk(ev, "vars", "added", "added_vars")
+            /\ SecOk(ev, "fsyms", "removed", "removed_fsyms") /\ SecOk(ev, "fsyms", "added", "added_fsyms")
+            /\ SecOk(ev, "vsyms", "removed", "removed_vsyms") /\ SecOk(ev, "vsyms", "added", "added_vsyms"))
+       THEN "bad:summary-disagrees-with-listed-entries"
+  ELSE IF ~ev.statSame THEN "bad:--stat-summary-differs"
+  ELSE IF ev.statExit # ev.exit THEN "bad:--stat-exit-differs"
+  ELSE "ok"
+
 Verdict(ev) ==
   CASE ev.e = "SelfDiff" -> VSelfDiff(ev)
+    [] ev.e = "Leaf" -> VLeaf(ev)
+    [] ev.e = "Summary" -> VSummary(ev)
     [] ev.e = "XmlEquiv" -> VXmlEquiv(ev)
     [] ev.e = "Fixpoint" -> VFixpoint(ev)
     [] ev.e = "WellFormed" -> VWellFormed(ev)
